@@ -1,3 +1,4 @@
+import Cactus.Lemmas.Complete
 import Cactus.Lemmas.Basic
 import Cactus.Lemmas.Orphan
 import Cactus.Props.C13
@@ -58,5 +59,21 @@ theorem C03_group_is_reach_set (s : State) (x : Nat) (hO : s.InvO) (hB : s.InvB)
   have hspec := cycleRefs_spec s x hok.1 hok.2
   rw [keys_eq_visited s x hO hB hx hne hext k]
   exact ⟨fun h => hspec.2.2.2.2.1 k h, fun h => hspec.2.2.2.2.2.2.1 k h⟩
+
+
+/-! ## The group rule, proved on the trace path
+
+`C03_group_collected` (in `Cactus.Lemmas.Complete`): in any state satisfying the invariants, when
+`Rc::drop` of a handle to `x` leaves `x` with a positive count (so the trace runs) and afterwards
+(i) no member of `FwdReach x` has a handle in the program or in a pending frame, (ii) no live
+object outside the set holds a handle to a member, (iii) inside the set every held handle is a
+recorded adoption and (iv) no live object outside has a stale record into the set (implied by (ii)
+and the contract: `noStale_of_P`), then that very machine step marks **every** member dead, moves
+every member's value out and schedules all their destructors above the rest of the stack, i.e.
+they run before the drop returns.  The zero-count path is the known finding D5 above. -/
+
+theorem C03_group_rule : type_of% @C03_group_collected := @C03_group_collected
+theorem C03_last_handle_with_adoptions : type_of% @C03_last_handle_links := @C03_last_handle_links
+theorem C03_no_stale_record_under_contract : type_of% @noStale_of_P := @noStale_of_P
 
 end Cactus
